@@ -216,6 +216,9 @@ def build(variant, outdir):
                 raise BuildError("write-trap layout: expected exactly one output section %s\n%s" % (name, secs))
     with open(exe + ".syms", "w") as f:
         f.write(run(["nm", "-n", "--defined-only", exe]))
+    # what the library objects import (DESIGN.md §1 inventory, re-derived on every build)
+    with open(os.path.join(outdir, "imports.txt"), "w") as f:
+        f.write("\n".join(sorted(set(l.split()[-1] for l in run(["nm", "-u", lib_sim]).split("\n") if l.strip()))))
     return exe, time.time() - t0
 
 
